@@ -1,27 +1,22 @@
 (* Tie between cutter.Cut's arithmetic (translated on every run) and the writer model. *)
-From Coq Require Import ZArith Bool Lia Arith.
-From SV Require Import Parser.Protocol Resolve.Op Gen.Kernels.
+From Coq Require Import ZArith Bool Lia Arith ZifyBool ZifyNat.
+From SV Require Import Parser.Protocol Resolve.Op Gen.Kernels GenTie.Tactics.
 Local Open Scope Z_scope.
 
 Theorem cutter_cutGuard_tie p force (pending max : nat) :
-  gen_cutter_cutGuard p force (Z.of_nat pending) (Z.of_nat max) = negb force && (pending <? max)%nat.
+  gen_cutter_cutGuard p force (Z.of_nat max) (Z.of_nat pending) = negb force && (pending <? max)%nat.
 Proof.
-  unfold gen_cutter_cutGuard. f_equal.
-  destruct (pending <? max)%nat eqn:E.
-  - apply Nat.ltb_lt in E. apply Z.ltb_lt. lia.
-  - apply Nat.ltb_ge in E. apply Z.ltb_ge. lia.
+  unfold gen_cutter_cutGuard. tie.
 Qed.
 
 Theorem cutter_min_tie p (i j : nat) : gen_cutter_min p (Z.of_nat i) (Z.of_nat j) = Z.of_nat (Nat.min i j).
 Proof.
-  unfold gen_cutter_min. destruct (Z.of_nat i <? Z.of_nat j) eqn:E.
-  - apply Z.ltb_lt in E. rewrite Nat.min_l by lia. reflexivity.
-  - apply Z.ltb_ge in E. rewrite Nat.min_r by lia. reflexivity.
+  unfold gen_cutter_min. tie.
 Qed.
 
 Theorem cutter_batchSize_tie p (pending max : nat) :
-  gen_cutter_batchSize p (Z.of_nat pending) (Z.of_nat max) = Z.of_nat (Nat.min pending max).
-Proof. unfold gen_cutter_batchSize. apply cutter_min_tie. Qed.
+  gen_cutter_batchSize p (Z.of_nat max) (Z.of_nat pending) = Z.of_nat (Nat.min pending max).
+Proof. unfold gen_cutter_batchSize. unfold gen_cutter_min. tie. Qed.
 
 Theorem cutter_maxOps_tie p : gen_cutter_maxOps p = MaxOperationCount p.
-Proof. reflexivity. Qed.
+Proof. unfold gen_cutter_maxOps. tie. Qed.
